@@ -44,6 +44,8 @@ pub enum Item {
     ThreeCalls(Lit, Lit, Lit, u8),
     /// two calls with a literal each in the initialiser of a local: `{ char ok = fc("a") && fc("b"); cr = ok; }`
     LocalInitCalls(Lit, Lit, u8),
+    /// a literal that initialises a local pointer: `{ char *lp = "lit"; pp = lp; }`
+    LocalPtrInit(Lit),
 }
 
 #[derive(Debug, Clone, Serialize, Deserialize)]
@@ -133,6 +135,7 @@ impl Reducible for Case {
                 }
                 Item::CallArg(l) => shorten(l).into_iter().for_each(|s| v.push(Item::CallArg(s))),
                 Item::Assign(l) => shorten(l).into_iter().for_each(|s| v.push(Item::Assign(s))),
+                Item::LocalPtrInit(l) => shorten(l).into_iter().for_each(|s| v.push(Item::LocalPtrInit(s))),
                 _ => {}
             }
             v
@@ -325,7 +328,9 @@ pub fn gen_case(g: &mut G, ex: &Excl) -> Case {
             1 if g.chance(1, 2) => Item::TwoCalls(gen_lit(g, 6, ex), gen_lit(g, 6, ex), g.chance(1, 2)),
             1 if g.chance(1, 2) => Item::LocalInitCalls(gen_lit(g, 5, ex), gen_lit(g, 5, ex), g.below(3) as u8),
             1 => Item::ThreeCalls(gen_lit(g, 5, ex), gen_lit(g, 5, ex), gen_lit(g, 5, ex), g.below(3) as u8),
-            2 | 3 => Item::Assign(gen_lit(g, 10, ex)),
+            2 => Item::Assign(gen_lit(g, 10, ex)),
+            3 if g.chance(1, 2) => Item::LocalPtrInit(gen_lit(g, 10, ex)),
+            3 => Item::Assign(gen_lit(g, 10, ex)),
             _ => {
                 let t = *g.pick(&["nop ; // not a comment", "lda #1 /* text */", "sta FOO", "; #define X 1", "nop"]);
                 Item::Asm(t.to_string())
@@ -378,6 +383,7 @@ fn item_text(it: &Item) -> String {
             }
         }
         Item::Assign(l) => format!("pp = \"{}\";", spell(l)),
+        Item::LocalPtrInit(l) => format!("{{ char *lp = \"{}\"; pp = lp; }}", spell(l)),
         Item::Asm(t) => format!("asm(\"{}\");", t),
     }
 }
@@ -456,7 +462,7 @@ pub fn check(case: &Case, st: &mut Stats, ex: &Excl) -> Result<(), String> {
         for it in case.header.iter().flatten().chain(case.lines.iter().flatten()).chain(case.stmts.iter()) {
             match it {
                 Item::Array(_, p) | Item::Table(_, p) => hit |= p.iter().any(bad),
-                Item::CallArg(l) | Item::Assign(l) => hit |= bad(l),
+                Item::CallArg(l) | Item::Assign(l) | Item::LocalPtrInit(l) => hit |= bad(l),
                 Item::TwoCalls(a, b, _) => hit |= bad(a) || bad(b),
                 Item::ThreeCalls(a, b, c, _) => hit |= bad(a) || bad(b) || bad(c),
                 Item::LocalInitCalls(a, b, _) => hit |= bad(a) || bad(b),
@@ -566,7 +572,10 @@ pub fn check(case: &Case, st: &mut Stats, ex: &Excl) -> Result<(), String> {
                     }
                 }
             }
-            Item::CallArg(l) | Item::Assign(l) => {
+            Item::CallArg(l) | Item::Assign(l) | Item::LocalPtrInit(l) => {
+                if matches!(it, Item::LocalPtrInit(_)) {
+                    st.count("label:literal-initialising-a-local-pointer");
+                }
                 st.count("literals");
                 let mut want = decode(l);
                 want.push(0);
